@@ -42,15 +42,18 @@ theorem option_value (isSome : ByteArray → Bool) (inner : ByteArray) :
     (isSome inner = true → Pod.optValue isSome inner = some inner) := Pod.optValue_spec isSome inner
 
 /-- Tie through the translator (`Stevia.GenPod.*`, regenerated from `pod_bool.rs`, `pod_option.rs` and `lib.rs` on every
-    run): the translated conversions, `value`/`value_mut` and `load`/`load_mut` are the model's. -/
+    run): the translated conversions, `value`/`value_mut` and `load`/`load_mut` are the model's; `PodOption::new` wraps
+    the inner value unchanged, so `new(x).value()` is `Some(x)` whenever `x` is a some-pattern. -/
 theorem translated_pod_is_the_model (b : UInt8) (x : Bool) (isSome isNone : ByteArray → Bool) (inner data : ByteArray)
     (n : Nat) :
     GenPod.pod_to_bool b = Pod.boolDecode b ∧ GenPod.pod_ref_to_bool b = Pod.boolDecode b ∧
     GenPod.bool_to_pod x = Pod.boolEncode x ∧ GenPod.bool_ref_to_pod x = Pod.boolEncode x ∧
     GenPod.option_value isSome isNone inner = Pod.optValue isSome inner ∧
     GenPod.option_value_mut isSome isNone inner = Pod.optValue isSome inner ∧
-    GenPod.load n data = (Pod.load n data).toOption ∧ GenPod.load_mut n data = (Pod.load n data).toOption :=
+    GenPod.load n data = (Pod.load n data).toOption ∧ GenPod.load_mut n data = (Pod.load n data).toOption ∧
+    GenPod.option_new inner = inner ∧
+    (isSome inner = true → GenPod.option_value isSome isNone (GenPod.option_new inner) = some inner) :=
   ⟨(GenPod.pod_to_bool_eq b).1, (GenPod.pod_to_bool_eq b).2, rfl, rfl, rfl, rfl, (GenPod.load_eq n data).1,
-   (GenPod.load_eq n data).2⟩
+   (GenPod.load_eq n data).2, rfl, fun h => (Pod.optValue_spec isSome inner).2 h⟩
 
 end Stevia.C15
